@@ -125,9 +125,9 @@ Proof.
 Qed.
 
 (* No DNAME leg (the common case; with a leg AD is additionally ANDed with the target's AD). *)
-Theorem answer_ad_partial_lemma E qname qtype cd resp pds zone m :
+Lemma answer_ad_core E qname qtype cd resp pds zone m :
   dname_target resp = None ->
-  validate_answer E qname qtype cd resp pds zone = Accept m -> m_ad resp = false ->
+  validate_answer_core E qname qtype cd resp pds zone = Accept m -> m_ad resp = false ->
   m_ad m = true ->
   cd = false /\ (e_dnssec E = true -> e_anchors E <> []) /\
   exists s ds, In s (find_signers (e_nrank E) (m_ans resp) qname true) /\
@@ -136,7 +136,7 @@ Theorem answer_ad_partial_lemma E qname qtype cd resp pds zone m :
     verify_dnssec E s resp ds = (true, None) /\
     verify_wildcard (fun nc => e_wild E (m_id resp) nc s) (m_ans resp) true = (true, None).
 Proof.
-  intros Hdn Hv Hin Had. unfold validate_answer in Hv. rewrite Hdn in Hv.
+  intros Hdn Hv Hin Had. unfold validate_answer_core in Hv. rewrite Hdn in Hv.
   assert (Htgt : (if qtype =? T_CNAME then None else @None lookup) = None) by (destruct (qtype =? T_CNAME); reflexivity).
   rewrite Htgt in Hv.
   destruct cd.
@@ -159,14 +159,30 @@ Proof.
   - injection Hv as <-. cbn in Had. discriminate.
 Qed.
 
-(* unsigned data is accepted only when the zone is not secure or an insecure delegation is proven *)
-Theorem unsigned_only_when_insecure_lemma E qname qtype resp pds zone m :
+Theorem answer_ad_partial_lemma E qname qtype cd resp0 pds zone m :
+  let resp := bailiwick zone resp0 in
   dname_target resp = None ->
-  validate_answer E qname qtype false resp pds zone = Accept m ->
+  validate_answer E qname qtype cd resp0 pds zone = Accept m -> m_ad resp0 = false ->
+  m_ad m = true ->
+  cd = false /\ (e_dnssec E = true -> e_anchors E <> []) /\
+  exists s ds, In s (find_signers (e_nrank E) (m_ans resp) qname true) /\
+    in_zone qname s = true /\
+    find_ds E (Some s) qname pds false = Ok ds /\ ds <> [] /\
+    verify_dnssec E s resp ds = (true, None) /\
+    verify_wildcard (fun nc => e_wild E (m_id resp) nc s) (m_ans resp) true = (true, None).
+Proof.
+  intros resp Hdn Hv Hin Had. eapply answer_ad_core; eauto.
+Qed.
+
+(* unsigned data is accepted only when the zone is not secure or an insecure delegation is proven *)
+Theorem unsigned_only_when_insecure_lemma E qname qtype resp0 pds zone m :
+  let resp := bailiwick zone resp0 in
+  dname_target resp = None ->
+  validate_answer E qname qtype false resp0 pds zone = Accept m ->
   find_signers (e_nrank E) (m_ans resp) qname true = [] ->
   is_zone_secure E qname pds zone = false \/ proven_insecure_delegation E zone qname pds = true.
 Proof.
-  intros Hdn Hv Hs. unfold validate_answer in Hv. rewrite Hdn, Hs in Hv.
+  intros resp Hdn Hv Hs. unfold validate_answer, validate_answer_core in Hv. fold resp in Hv. rewrite Hdn, Hs in Hv.
   assert (Htgt : (if qtype =? T_CNAME then None else @None lookup) = None) by (destruct (qtype =? T_CNAME); reflexivity).
   rewrite Htgt in Hv.
   destruct (e_dnssec E && match e_anchors E with [] => true | _ => false end); [discriminate|].
@@ -209,8 +225,8 @@ Theorem no_anchor_fail_closed_lemma E qname qtype resp pds zone :
   (forall q, validate_delegation E false resp q pds zone = Er ETrustAnchorsUnavailable).
 Proof.
   intros Hd Ha. split; [|split].
-  - unfold validate_answer. rewrite Hd, Ha. cbn.
-    destruct (if qtype =? T_CNAME then None else match dname_target resp with Some t => Some (e_dname E t qtype false) | None => None end) as [[i|t]|];
+  - unfold validate_answer, validate_answer_core. rewrite Hd, Ha. cbn.
+    destruct (if qtype =? T_CNAME then None else match dname_target (bailiwick zone resp) with Some t => Some (e_dname E t qtype false) | None => None end) as [[i|t]|];
       eauto.
   - unfold validate_negative. rewrite Hd, Ha. cbn. destruct (negb _); eauto.
   - intros q. unfold validate_delegation. rewrite Hd, Ha. reflexivity.
